@@ -292,3 +292,82 @@ mark_extra = FunctionContract(
             ("if molecule.nodes[idx].get('mutation') or molecule.nodes[idx].get('modification'):", "if True:")],
 )
 CONTRACTS.append(mark_extra)
+
+
+# ------------------------------------------------------------------ repair_residue, step 2: which missing atoms get their turn, and when it stops
+def setup_ctrl(cx):
+    d = setup_add(cx)
+    is_ref = cx.uf('is_ref', [RefIdx], TBool)               # an atom of the reference block
+    nbrs = cx.eng.uf('nbrs', [RefIdx], TSeq(RefIdx))
+    r, j = z3.Const('cr', RefIdx.sort()), z3.Int('cj')
+    cx.assume(z3.ForAll([r, j], z3.Implies(z3.And(is_ref(r), 0 <= j, j < TSeq(RefIdx).len(nbrs(r))), is_ref(TSeq(RefIdx).at(nbrs(r), j)))))
+    for k in ('ref_idx', 'added'):
+        d.pop(k)
+    return d
+
+
+SPEC_CTRL = {
+    'inmiss': "lambda r: exists(lambda p: 0 <= p and p < len(missing) and missing[p] == r)",
+    # nothing more can be done for the atom: every one of its block neighbours is missing as well
+    'stuck': "lambda r: forall(lambda j: implies(0 <= j and j < len(nbrs(r)), inmiss(nbrs(r)[j])))",
+}
+CTRL_INV = [
+    # no atom that was missing is forgotten: it is placed by now, or still on the list
+    "forall(lambda q: implies(0 <= q and q < len(missing0), missing0[q] in match or inmiss(missing0[q])))",
+    # every atom of the block is placed or on the list (what step 1 establishes), the list has no duplicates and holds block atoms
+    # that have attributes, none of which is its own neighbour
+    "forall(lambda r: implies(is_ref(r), r in match or inmiss(r)), RefIdx)",
+    "forall(lambda p, q: implies(0 <= p and p < q and q < len(missing), missing[p] != missing[q]))",
+    "forall(lambda p: implies(0 <= p and p < len(missing), is_ref(missing[p]) and not (missing[p] in match) and missing[p] in REFATTR and "
+    "   'element' in REFATTR[missing[p]] and forall(lambda j: implies(0 <= j and j < len(nbrs(missing[p])), nbrs(missing[p])[j] != missing[p]))))",
+    # what is placed stays placed, on atoms of the molecule; bonds join atoms of the molecule; the molecule is not empty
+    "forall(lambda r: implies(r in match0, r in match and match[r] == match0[r]), RefIdx)",
+    "forall(lambda r: implies(r in match, match[r] in MOLATTR), RefIdx)",
+    "forall(lambda a, b: implies((a, b) in EDGES, a in MOLATTR and b in MOLATTR))",
+    "len(MOLATTR) > 0",
+]
+repair_control = FunctionContract(
+    F, 'repair_residue', 'C04', short='repair_residue[which atoms get their turn]', setup=setup_ctrl, spec_defs=SPEC_CTRL,
+    spec_env=dict(RefIdx=RefIdx, Val=Val, EdgeK=EdgeK),
+    region=dict(start="added = True", end="for ref_idx in missing:"),
+    locals=dict(node=AttrsI, g_m=TSeq(RefIdx), g_before=TSeq(RefIdx), g_w=TInt),
+    ghost_at={'after:stmt:res_idx = max(molecule) + 1':
+              "prove(forall(lambda a, b: implies((a, b) in EDGES, a != res_idx and b != res_idx)), 'fresh-key-has-no-bonds')\n"
+              "prove(forall(lambda r: implies(r in match, match[r] != res_idx), RefIdx), 'fresh-key-is-nobodys-partner')",
+              'before:stmt:missing.pop(missing.index(ref_idx))': "g_before = list(missing)\ng_w = g_before.index(ref_idx)",
+              # the list after the pop, element by element; so every other atom is still on it (named steps for the solver)
+              'after:stmt:missing.pop(missing.index(ref_idx))':
+              "prove(len(missing) == len(g_before) - 1 and forall(lambda p: implies(0 <= p and p < g_w, missing[p] == g_before[p])) and "
+              "      forall(lambda p: implies(g_w <= p and p < len(missing), missing[p] == g_before[p + 1])), 'one-removed')\n"
+              "prove(forall(lambda p: implies(g_w < p and p < len(g_before), missing[p - 1] == g_before[p])), 'shifted-down')\n"
+              "prove(forall(lambda p: implies(0 <= p and p < g_w, inmiss(g_before[p]))), 'the-earlier-ones-stay')\n"
+              "prove(forall(lambda p: implies(g_w < p and p < len(g_before), inmiss(g_before[p]))), 'the-later-ones-stay')"},
+    requires=[x for x in CTRL_INV[1:]],
+    ensures=CTRL_INV + [
+        # the loop stops only when nothing more can be done: every atom still on the list has all its block neighbours on the list
+        "forall(lambda p: implies(0 <= p and p < len(missing), stuck(missing[p])))",
+    ],
+    modifies=['MOLATTR', 'FOUNDATTR', 'EDGES', 'match', 'missing'],
+    loops={
+        'L1': LoopSpec(inv=CTRL_INV + ["added or forall(lambda p: implies(0 <= p and p < len(missing), stuck(missing[p])))"],
+                       modifies=['MOLATTR', 'FOUNDATTR', 'EDGES', 'match', 'missing']),
+        'L1.1': LoopSpec(live=True, inv=CTRL_INV + [
+            "0 <= _i",
+            # a pass that placed nothing has not touched the list, and every atom it looked at is stuck
+            "implies(not added, len(missing) == len(g_m) and forall(lambda p: implies(0 <= p and p < len(g_m), missing[p] == g_m[p])) and "
+            "   forall(lambda p: implies(0 <= p and p < _i and p < len(missing), stuck(missing[p]))))"],
+            modifies=['MOLATTR', 'FOUNDATTR', 'EDGES', 'match', 'missing'], ghost_init="g_m = list(missing)"),
+        'L1.1.1': LoopSpec(inv=[], modifies=[]),
+        'L1.1.2': LoopSpec(
+            inv=["neighbours >= 0 and implies(exists(lambda j: 0 <= j and j < _i and nbrs(ref_idx)[j] in g_match), neighbours > 0)",
+                 "forall(lambda a, b: implies((a, b) in EDGES, a in MOLATTR and b in MOLATTR))",
+                 # the bonds of the new atom so far lead to placed neighbours that were already looked at
+                 "forall(lambda a, b: implies((a, b) in EDGES and (a == res_idx or b == res_idx), b == res_idx and a != res_idx and "
+                 "   exists(lambda j: 0 <= j and j < _i and nbrs(ref_idx)[j] in g_match and g_match[nbrs(ref_idx)[j]] == a)))"],
+            modifies=['EDGES'], ghost_init="g_match = dict(match)", locals=dict(g_match=TMap(RefIdx, TInt))),
+    },
+    canary=[("if all(ref_neighbour in missing for ref_neighbour in reference[ref_idx]):", "if any(ref_neighbour in missing for ref_neighbour in reference[ref_idx]):"),
+            ("while missing and added:", "while missing and not added:"),
+            ("missing.pop(missing.index(ref_idx))", "missing.pop(0)")],
+)
+CONTRACTS.append(repair_control)
